@@ -1,3 +1,21 @@
 import TFVerif.Props.C13
 open TFVerif.C13
 #print axioms per_cell_linear
+#print axioms per_cell_stack
+#print axioms per_cell_linear_bucket
+#print axioms per_cell_linear_periodic
+#print axioms per_cell_excelformer
+#print axioms per_cell_embedding
+#print axioms per_cell_multicategorical
+#print axioms per_cell_timestamp
+#print axioms per_cell_linear_embedding
+#print axioms per_cell_forward
+#print axioms perturb_one_cell_local
+#print axioms row_perm_equivariant
+#print axioms post_module_applied_last
+#print axioms missing_is_zero
+#print axioms strategy_is_imputation
+#print axioms imputation_replaces_exactly_missing
+#print axioms gen_eq_model_naOk
+#print axioms bad_combinations_rejected
+#print axioms rejected_at_construction
